@@ -29,7 +29,17 @@ func bigCSV() []byte {
 // the same file as a shell command (for reproducers)
 const bigAwk = `awk 'BEGIN{print "i,s,f,d,b,n"; split("ab,,日本語,x y,q,é,0,-1,2012-02-03,true",S,","); for(k=0;k<200;k++) printf "%d,%s,%g,2012-02-%02d %02d:18:15,%d,%s\n", k, S[k%10+1], k/8-5, k%28+1, k%24, k%3, (k%7==0 ? k-50 : "")}'`
 
+var fixtureCache []fileSpec
+
+// fixtures: shared, read-only (a job that adds files copies the slice)
 func fixtures() []fileSpec {
+	if fixtureCache == nil {
+		fixtureCache = makeFixtures()
+	}
+	return fixtureCache
+}
+
+func makeFixtures() []fileSpec {
 	return []fileSpec{
 		{Name: "t.csv", Data: []byte("c1,c2,c3\n1,a,1.5\n2,b,\n3,,2012-02-03\n-4,\"x,y\",NaN\n5,日本,9223372036854775807\n")},
 		{Name: "big.csv", Data: bigCSV()},
